@@ -148,59 +148,49 @@ impl PublicKey {
 
     /// Convert a byte sequence into the public key
     pub fn from_bytes<B: AsRef<[u8]>>(bytes: B) -> Option<Self> {
-        const SIZE: usize = 48;
-        // Length for w, x, and 1 y in g1 and 1 y in g2
-        const MIN_SIZE: usize = SIZE * 5 + 8;
+        const G1_SIZE: usize = 48;
+        const G2_SIZE: usize = 96;
 
-        let buffer = bytes.as_ref();
-        if buffer.len() < MIN_SIZE {
+        // cursor over the input: every read is bounds checked
+        fn take<'a>(buffer: &mut &'a [u8], n: usize) -> Option<&'a [u8]> {
+            if buffer.len() < n {
+                return None;
+            }
+            let (head, tail) = buffer.split_at(n);
+            *buffer = tail;
+            Some(head)
+        }
+        fn g2(buffer: &mut &[u8]) -> Option<G2Projective> {
+            let bytes = <[u8; G2_SIZE]>::try_from(take(buffer, G2_SIZE)?).ok()?;
+            Option::<G2Affine>::from(G2Affine::from_compressed(&bytes)).map(G2Projective::from)
+        }
+        fn g1(buffer: &mut &[u8]) -> Option<G1Projective> {
+            let bytes = <[u8; G1_SIZE]>::try_from(take(buffer, G1_SIZE)?).ok()?;
+            Option::<G1Affine>::from(G1Affine::from_compressed(&bytes)).map(G1Projective::from)
+        }
+        fn count(buffer: &mut &[u8]) -> Option<usize> {
+            let bytes = <[u8; 4]>::try_from(take(buffer, 4)?).ok()?;
+            Some(u32::from_be_bytes(bytes) as usize)
+        }
+
+        let mut buffer = bytes.as_ref();
+        let w = g2(&mut buffer)?;
+        let x = g2(&mut buffer)?;
+        let y_cnt = count(&mut buffer)?;
+        if buffer.len() < y_cnt.checked_mul(G2_SIZE)? {
             return None;
         }
-
-        fn from_be_bytes(d: &[u8]) -> G2Projective {
-            let mut tv = <G2Projective as GroupEncoding>::Repr::default();
-            tv.as_mut().copy_from_slice(d);
-            G2Projective::from_bytes(&tv).unwrap()
-        }
-
-        let mut offset = 0;
-        let mut end = SIZE;
-        let w = from_be_bytes(&buffer[offset..end]);
-        offset = end;
-        end += SIZE;
-
-        let x = from_be_bytes(&buffer[offset..end]);
-        offset = end;
-        end += 4;
-
-        let y_cnt = u32::from_be_bytes(<[u8; 4]>::try_from(&buffer[offset..end]).unwrap()) as usize;
-        offset = end;
-        end += SIZE * 2;
-
-        let mut y = Vec::new();
-
+        let mut y = Vec::with_capacity(y_cnt);
         for _ in 0..y_cnt {
-            y.push(from_be_bytes(&buffer[offset..end]));
-            offset = end;
-            end += SIZE * 2;
+            y.push(g2(&mut buffer)?);
         }
-
-        offset = end;
-        end += 4;
-
-        let mut y_blinds = Vec::new();
-        let y_blind_cnt =
-            u32::from_be_bytes(<[u8; 4]>::try_from(&buffer[offset..end]).unwrap()) as usize;
-
-        offset = end;
-        end += SIZE;
-
+        let y_blind_cnt = count(&mut buffer)?;
+        if buffer.len() != y_blind_cnt.checked_mul(G1_SIZE)? {
+            return None;
+        }
+        let mut y_blinds = Vec::with_capacity(y_blind_cnt);
         for _ in 0..y_blind_cnt {
-            let mut tv = <G1Projective as GroupEncoding>::Repr::default();
-            tv.as_mut().copy_from_slice(&buffer[offset..end]);
-            y_blinds.push(G1Projective::from_bytes(&tv).unwrap());
-            offset = end;
-            end += SIZE;
+            y_blinds.push(g1(&mut buffer)?);
         }
         Some(Self { w, x, y, y_blinds })
     }
